@@ -494,7 +494,7 @@ def run_check(prop, tier, seed, replay_file=None):
                 cid = by_id[eid].get("cid")
                 if cid not in cids:
                     cids.append(cid)
-            cids = cids[:400]
+            cids = cids[:120]         # the others are reported without re-execution
             by_seed = {}
             for eid, clause, feats in new:
                 ev = by_id[eid]
@@ -503,7 +503,7 @@ def run_check(prop, tier, seed, replay_file=None):
             again = set()
             for hs, cs in sorted(by_seed.items()):
                 evs2 = replay_pool(prop.lower(), [case_by[c] for c in sorted(cs)], os.path.join(work, "confirm"),
-                                   hashseeds=(int(hs),), nproc=4, extra_env={"VERIF_TIMEOUT_SCALE": "3"})
+                                   hashseeds=(int(hs),), nproc=8, extra_env={"VERIF_TIMEOUT_SCALE": "3"})
                 by_trace = {}
                 for ev in evs2:
                     by_trace.setdefault(ev.get("trace", drv.TRACE), []).append(ev)
